@@ -297,7 +297,7 @@ def check_arith_tables(repo, scratch):
             for pre in ("Number :: Float ( OrderedFloat ( ", "drop_iter_on_err ! ( self , iter , ", "try_numeric_result ! ( "):
                 if a_.startswith(pre):
                     a_ = a_[len(pre):]
-            if not (shape_ok and re.match(r"%s \( " % re.escape(k2.split("::")[-1]), a_)):
+            if not (shape_ok and re.match(r"(?:\w+ :: )*%s \( " % re.escape(k2.split("::")[-1]), a_)):
                 res["undecided"].append(ob + ": the run-time arm is not a plain kernel call (shape not recognised): %s" % arm.strip()[:120]); continue
         if k1 is None or k2 is None:
             res["undecided"].append(ob + ": kernel call not recognised (compiled: %s, run-time: %s)" % (k1, k2)); continue
